@@ -66,7 +66,8 @@ func (bmach *Bondmachine) Fitness_default(in *simbox.Simbox, exp *simbox.Simbox,
 			}
 		}
 
-		// TODO Periodic set
+		// Periodic set
+		sdrive.PeriodicSet(vm, i)
 
 		if _, err := vm.Step(sconfig); err != nil {
 			return 0, err
